@@ -250,10 +250,12 @@ func (self *VM) SpawnAsync(
 		))
 	}
 
+	// The function receives the validated (cast) arguments, e.g. a `T` passed for a `?T` arrives as `Some(T)`.
+	castArgs := make([]value.Value, len(invocation.Args))
 	index := 0
 	for _, param := range invocation.FunctionSignature.Params {
 		arg := invocation.Args[index]
-		_, interrupt := value.DeepCast(arg, param.Type, errors.Span{}, false)
+		castArg, interrupt := value.DeepCast(arg, param.Type, errors.Span{}, false)
 		if interrupt != nil {
 			panic(fmt.Sprintf(
 				"ARGS=%s | Argument %d for param `%s` type mismatch: `%s`",
@@ -264,14 +266,15 @@ func (self *VM) SpawnAsync(
 			))
 		}
 
+		castArgs[index] = *castArg
 		index++
 	}
 
 	// Invert arguments so that they match the order in which they would be pushed onto the stack.
-	argCIdx := len(invocation.Args) - 1
+	argCIdx := len(castArgs) - 1
 	invertedArgs := make([]value.Value, argCIdx+1)
 	for idx := argCIdx; idx >= 0; idx-- {
-		invertedArgs[argCIdx-idx] = invocation.Args[idx]
+		invertedArgs[argCIdx-idx] = castArgs[idx]
 	}
 
 	return self.spawnCoreInternal(
@@ -306,10 +309,12 @@ func (self *VM) SpawnSync(
 		))
 	}
 
+	// The function receives the validated (cast) arguments, e.g. a `T` passed for a `?T` arrives as `Some(T)`.
+	castArgs := make([]value.Value, len(invocation.Args))
 	index := 0
 	for _, param := range invocation.FunctionSignature.Params {
 		arg := invocation.Args[index]
-		_, interrupt := value.DeepCast(arg, param.Type, errors.Span{}, false)
+		castArg, interrupt := value.DeepCast(arg, param.Type, errors.Span{}, false)
 		if interrupt != nil {
 			panic(fmt.Sprintf(
 				"ARGS=%s | Argument %d for param `%s` type mismatch: `%s`",
@@ -320,14 +325,15 @@ func (self *VM) SpawnSync(
 			))
 		}
 
+		castArgs[index] = *castArg
 		index++
 	}
 
 	// Invert arguments so that they match the order in which they would be pushed onto the stack.
-	argCIdx := len(invocation.Args) - 1
+	argCIdx := len(castArgs) - 1
 	invertedArgs := make([]value.Value, argCIdx+1)
 	for idx := argCIdx; idx >= 0; idx-- {
-		invertedArgs[argCIdx-idx] = invocation.Args[idx]
+		invertedArgs[argCIdx-idx] = castArgs[idx]
 	}
 
 	coreHandle := self.spawnCoreInternal(
